@@ -1,6 +1,6 @@
 """C12 — gamut-corrective scalings keep hue and ratios and land in the chromatic gamut."""
 import numpy as np
-from common import F, rs, vs, ms, dyadic, close, call, parse_rat
+from common import F, rs, vs, ms, dyadic, close, call, parse_rat, as_given
 from systems import gen_A, gen_K, gen_baseline, apply_K
 from p17 import in_conv_lp
 
@@ -9,11 +9,16 @@ def run(R):
     import dreye
     nsys = 40 if R.tier == "quick" else 500
     R.rule = ("systems with 2-4 receptors (dichromats included), finite ub, K none/scalar/vector, baseline 0/scalar/vector; "
-              "non-negative target sets mixing chromaticities inside and outside the chromatic gamut, all-zero rows, default and "
-              "explicit (non-uniform) neutral points inside the gamut, relative and absolute capture. Intensity scaling is "
-              "compared with the exact model; for chromatic scaling the property predicates are evaluated on dreye's output "
-              "(totals kept, one common positive contraction along the hue direction from the neutral point, every chromaticity "
-              "inside the chromatic gamut and the most saturated one on its boundary, identity when already inside). "
+              "non-negative target sets mixing chromaticities inside and outside the chromatic gamut, all-zero rows (with targets "
+              "outside the gamut and with all other targets already inside), single-target sets, whole-number target sets handed "
+              "in with an integer dtype, Fortran-ordered / strided target arrays, default and explicit (non-uniform) neutral "
+              "points inside the gamut, relative and absolute capture. Call histories: every call on a fresh estimator, or all "
+              "calls of a system on ONE estimator -- 1-3 intensity scalings with random relative/absolute flags and the chromatic "
+              "scaling in random order (the answers must not depend on earlier calls; registered state is compared before/after "
+              "every call). Intensity scaling (every call of the history) is compared with the exact model; for chromatic scaling "
+              "the property predicates are evaluated on dreye's output (totals kept, one common positive contraction along the "
+              "hue direction from the neutral point, every chromaticity inside the chromatic gamut and the most saturated one on "
+              "its boundary, identity when all chromaticities are already inside -- all-zero rows have none). "
               "Non-trivial: >=3 receptors with at least one target outside the chromatic gamut, or a dichromat.")
     jobs = []
     for si in range(nsys):
@@ -27,26 +32,37 @@ def run(R):
         bk, base = gen_baseline(rng, nf, kinds=("zero", "zero", "scalar", "vector"))
         ub = dyadic(rng, 0.5, 4, 2, size=ns); lb = np.zeros(ns)
         relative = bool(rng.integers(4) > 0)
-        Ap, bp = apply_K(A, K, base) if relative else (A.copy(), np.zeros(nf))
+        sysd = {True: apply_K(A, K, base), False: (A.copy(), np.zeros(nf))}    # the (A', base') a call with this flag works with
+        Ap, bp = sysd[relative]
         filt = np.hstack([np.zeros((nf, 1)), A, np.zeros((nf, 1))]); src = np.hstack([np.zeros((ns, 1)), np.eye(ns), np.zeros((ns, 1))])
         est = lambda: dreye.ReceptorEstimator(filt, domain=1.0, K=(1.0 if K is None else K), baseline=base, sources=src, lb=lb, ub=ub)  # noqa: E731
         # targets: in-gamut captures, desaturated / oversaturated ones, zero row
         X = dyadic(rng, 0.125, 0.875, 3, size=(4, ns)) * ub
         Bin = X @ Ap.T + bp
-        mode = str(rng.choice(["mixed", "inside", "with_zero"]))
+        mode = str(rng.choice(["mixed", "inside", "with_zero", "inside_with_zero", "single"]))
         Bout = Bin.copy()
-        if mode != "inside":
+        if mode not in ("inside", "inside_with_zero"):
             for i in range(len(Bout)):
                 cidx = rng.integers(nf)
                 Bout[i, cidx] *= float(rng.choice([4.0, 8.0]))     # oversaturate one receptor
                 Bout[i, (cidx + 1) % nf] *= 0.25
-        Bt = np.vstack([Bin[:2], Bout[2:]]) if mode != "inside" else Bin
-        if mode == "with_zero":
-            Bt = np.vstack([Bt, np.zeros(nf)])
+        Bt = np.vstack([Bin[:2], Bout[2:]]) if mode not in ("inside", "inside_with_zero") else Bin
+        if mode in ("with_zero", "inside_with_zero"):
+            # all-zero rows anywhere in the set (they have no chromaticity: total 0 must stay 0, the others are scaled as without them)
+            for _ in range(int(rng.integers(1, 3))):
+                Bt = np.insert(Bt, int(rng.integers(len(Bt) + 1)), 0.0, axis=0)
+        if mode == "single":
+            Bt = Bt[[int(rng.integers(len(Bt)))]]
+        # whole-number target sets may be handed in with an integer dtype (values only go to the model)
+        whole = bool(rng.integers(5) == 0)
+        if whole:
+            Bt = np.round(Bt * 4.0)
+            if not np.any(Bt > 0):
+                Bt[0, 0] = 1.0
         neutral_kind = str(rng.choice(["default", "explicit"]))
         neutral = None
         c = dict(k=k, nf=nf, ns=ns, A=A, K=K, K_kind=kk, baseline=base, baseline_kind=bk, ub=ub, relative=relative, mode=mode,
-                 neutral_kind=neutral_kind, B=Bt)
+                 neutral_kind=neutral_kind, B=Bt, whole=whole)
         if neutral_kind == "default":
             # the default (equal-capture) neutral point must lie inside the chromatic gamut (the property's premise)
             from itertools import product as iprod
@@ -57,37 +73,63 @@ def run(R):
         if neutral_kind == "explicit":
             neutral = (Ap @ (ub * dyadic(rng, 0.25, 0.75, 2, size=ns)) + bp)    # a capture inside the gamut, non-uniform
             c["neutral_point"] = neutral
-        for key in ("K_kind", "baseline_kind", "mode", "neutral_kind"):
+        # ---- call history: fresh estimator per call, or every call of this system on one estimator
+        hrng = R.rng(7, si)
+        history = str(hrng.choice(["fresh", "shared", "shared"]))
+        flags = [bool(hrng.integers(2)) for _ in range(int(hrng.integers(0, 3)))] + [relative]
+        # a flag is usable for this target set when the largest light-induced part is positive (one common POSITIVE factor exists)
+        flags = [r for r in flags if float(np.max(Bt - sysd[r][1])) > 0]
+        order = ["l1:%d" % i for i in range(len(flags))] + ["dist"]
+        if history == "shared":
+            order = [order[i] for i in hrng.permutation(len(order))]
+        c["history"] = history
+        c["calls"] = [("dist" if o == "dist" else "l1(relative=%s)" % flags[int(o[3:])]) for o in order]
+        for key in ("K_kind", "baseline_kind", "mode", "neutral_kind", "history"):
             R.count("%s:%s" % (key, c[key]))
-        R.count("nf:%d" % nf); R.count("relative:%s" % relative)
-        st1, o1 = call(lambda: est().gamut_l1_scaling(Bt.copy(), relative=relative))
-        Bpos = Bt[Bt.sum(1) > 0] if mode != "with_zero" else Bt
-        st2, o2 = call(lambda: est().gamut_dist_scaling(Bt.copy(), neutral_point=(None if neutral is None else neutral.copy()), relative=relative))
-        st3, o3 = call(lambda: est().in_hull(Bt[Bt.sum(1) > 0].copy(), relative=relative, normalized=True))
-        R.driver.ask("l" + k, "l1scale", ms(Ap), vs(bp), vs(ub), ms(Bt))
-        jobs.append((c, Ap, bp, st1, o1, st2, o2, st3, o3, neutral))
+        R.count("nf:%d" % nf); R.count("relative:%s" % relative); R.count("whole_int_targets:%s" % whole)
+        R.count("rows:%d" % len(Bt)); R.count("calls_on_one_estimator:%d" % (len(order) if history == "shared" else 1))
+        shared = est() if history == "shared" else None
+        l1res = {}
+        st2 = o2 = None
+        for o in order:
+            e = shared if shared is not None else est()
+            Bg = as_given(hrng, Bt, R, "B", kinds=("same", "int", "fortran", "strided"))
+            if o == "dist":
+                st2, o2 = call(e.gamut_dist_scaling, Bg, neutral_point=(None if neutral is None else neutral.copy()), relative=relative)
+            else:
+                i = int(o[3:])
+                l1res[i] = call(e.gamut_l1_scaling, Bg, relative=flags[i])
+                Aq, bq = sysd[flags[i]]
+                R.driver.ask("l%s_%d" % (k, i), "l1scale", ms(Aq), vs(bq), vs(ub), ms(Bt))
+        st3, o3 = call(est().in_hull, Bt[Bt.sum(1) > 0].copy(), relative=relative, normalized=True)
+        jobs.append((c, Ap, bp, sysd, flags, l1res, st2, o2, st3, o3, neutral))
     R.driver.run()
-    for c, Ap, bp, st1, o1, st2, o2, st3, o3, neutral in jobs:
+    for c, Ap, bp, sysd, flags, l1res, st2, o2, st3, o3, neutral in jobs:
         k = c["k"]; nf = c["nf"]; Bt = c["B"]
         sig = "C12:nf=%d:%s" % (nf, "rel" if c["relative"] else "abs")
         outside_any = (st3 == "ok") and (not np.all(o3))
         R.case(c, (k,) if ((nf >= 3 and outside_any) or nf == 2) else None, sample=(outside_any and nf >= 3))
-        # ---- intensity scaling
-        if st1 != "ok":
-            R.failB(dict(c, impl_error=o1), "gamut_l1_scaling raised %s: %s" % (st1, o1), sig + ":l1:raises:" + st1)
-        else:
-            t = R.driver.get("l" + k); M = t.mat(); amax = t.rat()
+        # ---- intensity scaling: every call of the history against the model of ITS flag
+        for i, r in enumerate(flags):
+            st1, o1 = l1res[i]
+            sig1 = "C12:nf=%d:%s" % (nf, "rel" if r else "abs")
+            bq = sysd[r][1]
+            c1 = dict(c, l1_call=i, l1_relative=r)
+            if st1 != "ok":
+                R.failB(dict(c1, impl_error=o1), "gamut_l1_scaling raised %s: %s" % (st1, o1), sig1 + ":l1:raises:" + st1)
+                continue
+            t = R.driver.get("l%s_%d" % (k, i)); M = t.mat(); amax = t.rat()
             o1 = np.asarray(o1); sc = float(np.max(np.abs(o1))) + 1.0
-            if o1.shape != Bt.shape or any(not close(o1[i, j], M[i][j], sc, 1e-11) for i in range(len(M)) for j in range(nf)):
-                R.failB(dict(c, impl=o1, model=[[float(v) for v in r] for r in M]), "intensity scaling differs from (B-base)*amax/bmax+base", sig + ":l1:mismatch")
+            if o1.shape != Bt.shape or any(not close(o1[a, j], M[a][j], sc, 1e-11) for a in range(len(M)) for j in range(nf)):
+                R.failB(dict(c1, impl=o1, model=[[float(v) for v in r_] for r_ in M]), "intensity scaling differs from (B-base)*amax/bmax+base", sig1 + ":l1:mismatch")
             else:
-                li = o1 - bp
+                li = o1 - bq
                 if abs(float(np.max(li)) - float(amax)) > 1e-9 * sc:
-                    R.failB(dict(c, impl=o1), "largest light-induced capture after scaling is %r, the smallest single-source maximum is %r" % (float(np.max(li)), float(amax)), sig + ":l1:max-not-amax")
-                orig = Bt - bp
+                    R.failB(dict(c1, impl=o1), "largest light-induced capture after scaling is %r, the smallest single-source maximum is %r" % (float(np.max(li)), float(amax)), sig1 + ":l1:max-not-amax")
+                orig = Bt - bq
                 f = li[np.abs(orig) > 1e-12] / orig[np.abs(orig) > 1e-12]
                 if len(f) and (np.max(f) - np.min(f) > 1e-9 * abs(np.max(f)) or np.min(f) <= 0):
-                    R.failB(dict(c, impl=o1), "light-induced parts are not scaled by one common positive factor", sig + ":l1:no-common-factor")
+                    R.failB(dict(c1, impl=o1), "light-induced parts are not scaled by one common positive factor", sig1 + ":l1:no-common-factor")
         # ---- chromatic scaling
         if st2 != "ok":
             R.failB(dict(c, impl_error=o2), "gamut_dist_scaling raised %s: %s" % (st2, o2), sig + ":dist:raises:" + st2)
@@ -103,6 +145,12 @@ def run(R):
             if np.max(np.abs(o2 - Bt)) > 1e-12 * sc:
                 R.failB(dict(c, impl=o2), "targets already inside the chromatic gamut were changed", sig + ":dist:not-identity")
             continue
+        if st3 == "ok" and np.all(o3) and np.max(np.abs(o2 - Bt)) > 1e-9 * sc:
+            # every target that has a chromaticity is already inside the chromatic gamut (the others are all-zero rows):
+            # "returns the targets unchanged when they already do"
+            R.failB(dict(c, impl=o2, max_change=float(np.max(np.abs(o2 - Bt)))),
+                    "every chromaticity of the target set is already inside the chromatic gamut (the set also holds all-zero rows), "
+                    "but the targets were changed (max |change| %.3g)" % float(np.max(np.abs(o2 - Bt))), sig + ":dist:not-identity-with-zero-row")
         if np.max(np.abs(o2[nz].sum(1) - Bt[nz].sum(1))) > 1e-9 * sc:
             R.failB(dict(c, impl=o2), "total capture of a target changed", sig + ":dist:total-changed")
         nvec = np.ones(nf) if neutral is None else np.asarray(neutral, dtype=float)
